@@ -93,7 +93,9 @@ class Uses:
 
             if a[0] == b[0]:
                 if a[1] == b[1]:
-                    return cmp(a[2], b[2])
+                    # Props objects are not ordered; a version is None for an unresolved dependency
+                    return cmp((a[2].version or "", a[2].optional, a[2].depth),
+                               (b[2].version or "", b[2].optional, b[2].depth))
                 else:
                     return cmp(a[1], b[1])
             else:
